@@ -319,7 +319,7 @@ def _cap_memory():
 # the implementation under test gets an address-space limit too: a generated program that makes p2sh ask for more is "more
 # memory than the machine has" (the allocator's refusal is reported as ABORT(alloc-failed) and judged as such); without
 # it one such program took a thorough run (and everything else on the machine) down at 29–44 GB
-HARNESS_MEMORY_CAP = 10 * 1024 ** 3
+HARNESS_MEMORY_CAP = 6 * 1024 ** 3
 
 
 def _cap_memory_harness():
